@@ -45,7 +45,7 @@ Theorem tensor_train_ranks_respected X rank cores :
   match validate_tt_rank (ndim X) rank with Ok rk => ranks_respected cores (tl rk) | Err => False end.
 Proof.
   unfold tensor_train. destruct (validate_tt_rank (ndim X) rank) as [rk|]; [|discriminate].
-  cbn [rbind]. apply chain_loop_ranks_respected.
+  cbn [rbind]. destruct (ndim X <=? 1); [discriminate|]. apply chain_loop_ranks_respected.
 Qed.
 
 End Ranks.
